@@ -190,6 +190,9 @@ def compare(rec, name, kind, a, b, parents, tol, floor=1.0):
         # compared (finite on both sides and of moderate size).
         a = _norm(a)[parents]
         b = _norm(b)
+        if a.shape != b.shape:
+            rec.close(b, a, name)       # reports the shape mismatch
+            return
         with np.errstate(invalid="ignore"):
             okm = np.isfinite(a) & np.isfinite(b) & (np.abs(a) < 1e6) & \
                 (np.abs(b) < 1e6)
@@ -216,6 +219,9 @@ def compare(rec, name, kind, a, b, parents, tol, floor=1.0):
         # pairs among descendants of one node (twins) are new: skip them
         mask = parents[:, None] != parents[None, :]
         mask |= np.eye(len(parents), dtype=bool)
+        if b.shape != exp.shape:
+            rec.close(b, exp, name)     # reports the shape mismatch
+            return
         rec.close(b[mask], exp[mask], name, rtol=tol, atol=tol * 1e-3)
 
 
